@@ -98,7 +98,7 @@ impl MathOp {
             MathOp::Div => {
                 match y {
                     0 => -1, // 2^32 - 1 as i32
-                    _ => x / y,
+                    _ => x.wrapping_div(y),
                 }
             }
             MathOp::Divu => match y {
@@ -107,7 +107,7 @@ impl MathOp {
             },
             MathOp::Rem => match y {
                 0 => x,
-                _ => x % y,
+                _ => x.wrapping_rem(y),
             },
             MathOp::Remu => match y {
                 0 => x,
